@@ -496,16 +496,16 @@ func (prop) Generate(rng *core.Rand, tier string, emit func(string)) {
 			emit("match " + core.Hex(h) + " " + core.Hex(n))
 		}
 	}
-	for i := 0; i < 30000*scale; i++ {
+	for i := 0; i < 22000*scale; i++ {
 		emit(genServe(rng))
 	}
-	for i := 0; i < 10000*scale; i++ {
+	for i := 0; i < 7000*scale; i++ {
 		emit(genMatch(rng))
 	}
 	for i := 0; i < 1200*scale; i++ {
 		emit(genPair(rng))
 	}
-	for i := 0; i < 1500*scale; i++ {
+	for i := 0; i < 1000*scale; i++ {
 		// any two requests on two instances: the second answer does not depend on the first
 		a := strings.TrimPrefix(genServe(rng), "serve ")
 		b := strings.TrimPrefix(genServe(rng), "serve ")
